@@ -29,8 +29,8 @@ STUB = ["random.random() (seeded per run; random_agents draws from it)"]
 ASSUMPTIONS = ["purely sequential histories: the simulator contributes the operation history (creation = node join, deletion = node crash, "
                "configure_agents/reset = cluster restart keeping the id counter), no schedule or clock is involved",
                "the enumeration is complete for the stated alphabet and length bound only"]
-FAULT_KINDS = ["agent_deletion", "reconfiguration", "reset"]
-PROBES = ["query_after_deletion", "count_per_state_after_deletion", "delete_nonexistent_id", "two_types_interleaved_ids",
+FAULT_KINDS = ["agent_deletion", "reconfiguration", "failed_reconfiguration", "reset"]
+PROBES = ["nested_creation", "failed_reconfiguration", "query_after_deletion", "count_per_state_after_deletion", "delete_nonexistent_id", "two_types_interleaved_ids",
           "configure_after_deletion"]
 EXHAUSTIVE = {"quick": False, "thorough": False}
 
@@ -95,7 +95,11 @@ def generate(spec):
     next_id = 0
     for _ in range(rng.randint(3, 40)):
         r = rng.random()
-        if r < 0.30 and n_live_est < 10:
+        if r < 0.05 and n_live_est < 8:
+            ops.append({"op": "create", "type": "team"})
+            n_live_est += 3
+            next_id += 3
+        elif r < 0.30 and n_live_est < 10:
             ops.append({"op": "create", "type": rng.choice(["a", "b"])})
             n_live_est += 1
             next_id += 1
@@ -115,9 +119,15 @@ def generate(spec):
             ops.append({"op": "configure", "spec": spec_})
             n_live_est = sum(c for _, c in spec_)
             next_id += n_live_est
-        elif r < 0.78:
+        elif r < 0.77:
             ops.append({"op": "reset"})
             n_live_est = 0
+        elif r < 0.80:
+            good = [[t, rng.choice([1, 2])] for t in rng.sample(["a", "b"], rng.choice([0, 1, 2]))]
+            pos = rng.randrange(len(good) + 1)
+            ops.append({"op": "configure_bad", "spec": good[:pos] + [["ghost", 1]] + good[pos:]})
+            n_live_est = 3
+            next_id += 4
         else:
             ops.append({"op": "set_state", "id": rng.randrange(0, max(1, next_id + 1)), "state": rng.choice(STATES)})
     return {"property": PROPERTY, "kind": "ops", "ops": ops, "seed": spec["seed"] % (2**32)}
@@ -131,7 +141,16 @@ def shadow_new():
 
 def shadow_apply(sh, op):
     k = op["op"]
-    if k == "create":
+    if k == "create" and op["type"] == "team":
+        # the team's id is taken first, its members are created (and registered) while it initialises,
+        # the team itself is registered last
+        tid = sh["next"]
+        sh["ever"].add(tid)
+        sh["next"] += 1
+        for _ in range(2):
+            shadow_apply(sh, {"op": "create", "type": "a"})
+        sh["live"][tid] = ["team", "idle"]
+    elif k == "create":
         sh["live"][sh["next"]] = [op["type"], "idle"]
         sh["ever"].add(sh["next"])
         sh["next"] += 1
@@ -181,7 +200,7 @@ def compare(model, sh, res, where):
                 res.violate("C14.lookup-by-id", {"id": i, "got": None if a is None else a.id, "where": where})
             if i not in live and a is not None:
                 res.violate("C14.lookup-by-id", {"id": i, "got": a.id, "expected": None, "where": where})
-    for t in ("a", "b"):
+    for t in ("a", "b", "team"):
         exp_ids = [i for i, (tt, s) in live.items() if tt == t]
         st, got = q("agent_ids(%s)" % t, lambda: list(model.agent_ids(t)))
         if st == "ok" and got != exp_ids:
@@ -218,21 +237,38 @@ def run_history(ops_or_syms, res, log, symbolic):
         log.add("op", n, op)
         if destructive:
             after_destructive = True
-        if op["op"] in ("delete", "delete_many", "configure", "reset"):
+        if op["op"] in ("delete", "delete_many", "configure", "configure_bad", "reset"):
             destructive = True
-            res.fault({"delete": "agent_deletion", "delete_many": "agent_deletion", "configure": "reconfiguration", "reset": "reset"}[op["op"]])
+            res.fault({"delete": "agent_deletion", "delete_many": "agent_deletion", "configure": "reconfiguration",
+                       "configure_bad": "failed_reconfiguration", "reset": "reset"}[op["op"]])
             if op["op"].startswith("delete"):
                 ids = [op["id"]] if op["op"] == "delete" else op["ids"]
                 if any(i not in sh["live"] for i in ids):
                     res.probe("delete_nonexistent_id")
             if op["op"] == "configure" and len(sh["ever"]) > len(sh["live"]):
                 res.probe("configure_after_deletion")
+        if op["op"] == "create" and op.get("type") == "team":
+            res.probe("nested_creation")
         try:
             model.world.apply_op(model, op)
+            failed = False
         except Exception as e:
-            res.violate("C14.operation-raised", {"op": op, "exception": type(e).__name__, "where": n})
-            return destructive
-        shadow_apply(sh, op)
+            if op["op"] != "configure_bad":
+                res.violate("C14.operation-raised", {"op": op, "exception": type(e).__name__, "where": n})
+                return destructive
+            failed = True
+        if failed:
+            # which population survives a failed reconfiguration is not prescribed (nothing, a part, or the old
+            # one after a rollback are all fine): take it from the list of agents, then the queries must agree with it
+            res.probe("failed_reconfiguration")
+            ids_now = [a.id for a in model.agents]
+            if any(i >= model.next_agent_id for i in ids_now) or model.next_agent_id < sh["next"]:
+                res.violate("C14.id-reused-or-skipped", {"next_agent_id": model.next_agent_id, "ids": ids_now, "where": n})
+            sh["live"] = {a.id: [a.agent_type, a.state] for a in model.agents}
+            sh["ever"] |= set(ids_now)
+            sh["next"] = model.next_agent_id
+        else:
+            shadow_apply(sh, op)
         if len(sh["ever"]) > len(sh["live"]) or destructive:
             res.probe("query_after_deletion")
             if any(s != "idle" for _, s in sh["live"].values()) or True:
